@@ -5,6 +5,7 @@ import (
 	"fmt"
 	"os"
 	"strconv"
+	"strings"
 
 	"gowp"
 )
@@ -27,6 +28,19 @@ func main() {
 	_ = fs.Parse(os.Args[3:])
 	seed, _ := strconv.ParseInt(envOr("VERIF_SEED", "0"), 10, 64)
 	switch cmd {
+	case "replay":
+		// vcheck replay <file>: re-run a generated counterexample test against /repo
+		if !strings.HasSuffix(id, "_test.go") {
+			b, _ := os.ReadFile(id)
+			fmt.Println(string(b))
+			os.Exit(0)
+		}
+		out, _ := gowp.RunReplayFile(*repo, id)
+		fmt.Println(out)
+		if strings.Contains(out, "VERIF-REPLAY REPRODUCED") {
+			os.Exit(1)
+		}
+		os.Exit(0)
 	case "check":
 		os.Exit(gowp.RunCheck(id, gowp.Options{VerifDir: *verif, RepoDir: *repo, Tier: *tier, Seed: seed, Verbose: *verbose, Only: *only, WriteLedger: *wl, NoReplay: *noreplay}))
 	default:
